@@ -498,6 +498,24 @@ def run(ctx):
                            f"`{n_.target.id} = {ast.unparse(a_.value)[:60]}` is allocated in the namespace's default width and then updated in place: under torch (default float32) a transform "
                            "built for float64 reports its log-Jacobian rounded to float32, so inverse and forward log-Jacobians agree to about 1e-7 only", disc=n_.target.id)
     ctx.floor("log-Jacobian accumulators updated in place", n_acc, 2)
+    # an array a transform allocates with an explicit dtype takes the transform's dtype -- not the dtype of an array the user supplied (bounds written
+    # as Python integers make lower / upper / upper - lower integer arrays under NumPy and JAX; a log-Jacobian constant filled into such an array is truncated)
+    n_dt = 0
+    for f_ in repo.all_functions():
+        if not f_.ident.startswith("aspire.transforms:"):
+            continue
+        for n_ in walk_no_nested(f_.node):
+            if isinstance(n_, ast.Call) and isinstance(n_.func, ast.Attribute) and n_.func.attr in ("zeros", "ones", "empty", "full", "zeros_like", "ones_like", "full_like"):
+                dt_ = next((k.value for k in n_.keywords if k.arg == "dtype"), None)
+                if dt_ is None:
+                    continue
+                n_dt += 1
+                own_dtype = isinstance(dt_, ast.Attribute) and dt_.attr == "dtype" and isinstance(dt_.value, ast.Name) and f_.params and dt_.value.id == f_.params[0]
+                borrowed = isinstance(dt_, ast.Attribute) and dt_.attr == "dtype" and not own_dtype
+                ctx.decide(not borrowed, "C04.alloc", f_.ident, loc_of(f_, n_), "the allocation names the transform's own dtype",
+                           f"`{ast.unparse(n_)[:70]}` takes its dtype from `{ast.unparse(getattr(dt_, 'value', dt_))[:30]}`, an array derived from what the caller supplied: integer-typed bounds (NumPy / JAX, "
+                           "dtype=None) make it an integer dtype, and a log-Jacobian constant filled into it is truncated (log 20 + log 7 = 4.94 becomes 4)", disc=f"borrowed-dtype|{n_dt}")
+    ctx.count("allocations_with_explicit_dtype", n_dt)
     # ---- the flow used as a preconditioning map reports its log-Jacobian deterministically (no stochastic trace estimator), shared with C03
     from .c03 import exact_option_rule
     exact_option_rule(ctx, "C04.form")
@@ -856,7 +874,13 @@ MUTANTS += [
 MUTANTS += [
     M("flow matching defaults to the Hutchinson trace estimate", "src/aspire/flows/torch/flows.py", "kwargs.setdefault(\"hidden_features\", 4 * [100])", "kwargs.setdefault(\"hidden_features\", 4 * [100])\n        kwargs.setdefault(\"exact\", False)", "C04.form"),
 ]
+MUTANTS += [
+    M("constant log-Jacobian filled into an array of the bounds' dtype", "src/aspire/transforms.py", "log_j = self._scale_log_abs_det_jacobian * self.xp.ones(\n            y.shape[0], device=get_device(y)\n        )",
+      "log_j = self.xp.full((y.shape[0],), self._scale_log_abs_det_jacobian, dtype=self._denom.dtype, device=get_device(y))", "C04.alloc"),
+]
 NEUTRALS = [
+    M("constant log-Jacobian filled into an array of the transform's dtype", "src/aspire/transforms.py", "log_j = self._scale_log_abs_det_jacobian * self.xp.ones(\n            y.shape[0], device=get_device(y)\n        )",
+      "log_j = self.xp.full((y.shape[0],), self._scale_log_abs_det_jacobian, dtype=self.dtype, device=get_device(y))"),
     M("log-Jacobian built without in-place updates", "src/aspire/transforms.py", "x, log_j_affine = self._affine_transform.forward(x)\n            log_abs_det_jacobian += log_j_affine",
       "x, log_j_affine = self._affine_transform.forward(x)\n            log_abs_det_jacobian = log_abs_det_jacobian + log_j_affine"),
     M("overflow-safe sigmoid with the right Jacobian", _U, "x = xp.divide(1, 1 + xp.exp(-x))\n    log_j = (xp.log(x) + xp.log1p(-x)).sum(-1)\n    return x, log_j",
